@@ -46,6 +46,13 @@ add("C07", "fault_enumeration",
     "Crash = process death with intact page cache. Crash points exist only where vhook.Point calls were placed (between every pair of file-system effects found by reading the code). Client-style reopen re-implements do_the_blocks/LocalAcceptBlock in the harness.",
     "DESIGN.md §3 C07")
 
+add("C19", "fault_enumeration",
+    "shadow-map runtime monitor over random operation histories (unique values) in journaling child workers + crash-point enumeration at build-tag hook points of sync/defrag/open/close with a per-key durability oracle",
+    "Held on the histories and crash points observed: ~1000 (quick) random histories of put/del/get/browse/flags/sync/defrag/close/reopen over small key spaces compared with a Go map after every operation, and "
+    "hundreds (quick) / all (thorough) (hook point, n) kills of a journaling worker followed by a fresh-process reopen (and a second kill during recovery); per key the reopened value must be the last synced one or a later written one.",
+    "Crash = process death with intact page cache; histories are single-threaded (the package is used under one lock by its only client). Oracle = Go map + journal of acknowledged operations.",
+    "DESIGN.md §3 C19")
+
 NOT_BUILT = {}
 
 def main():
